@@ -379,7 +379,9 @@ def iter_scenario(rng, flavor, hid):
         ops += rng.sample(["push 0", "pop 0", "insert 0 0", "remove 0 0", "clone 0 1", "shrinkfit 0", "trunc 0 1", "reserve 0 3"], rng.randint(0, 3))
     hdr = "H %s cls=%s" % (hid, cls)
     if flavor.get("panic") and cls in TRACKED and fresh > 0 and rng.random() < 0.7:
-        ids = sorted(set(rng.randrange(max(n, 1)) for _ in range(rng.choice([1, 1, 2]))))
+        # prefer identities inside the iterator's window (the elements pushed first have ids 0..n-1)
+        pool = list(range(s, e)) if (kind in ("drain", "splice") and e > s and rng.random() < 0.7) else list(range(max(n, 1)))
+        ids = sorted(set(rng.choice(pool) for _ in range(rng.choice([1, 1, 2]))))
         hdr += (" dp=" if rng.random() < 0.8 else " cp=") + ",".join(map(str, ids))
     return hdr + " :: " + " ; ".join(ops)
 
@@ -402,16 +404,54 @@ FLAVORS = {
     "C18": {"malformed": 0.02},
 }
 
+SIZES = {"1x1": 1, "2x2": 2, "3x1": 3, "8x8": 8, "24x8": 24, "16x16": 16, "64x64": 64, "2048x8": 2048}
+
+def size_args(rng, sz):
+    bases = ["M", "M/2", "M/4", "M/8", "M/3", "M/16", "M/24", "M/64", "M/2048", "M/%d" % sz, "M/2/%d" % sz, "M/%d" % (2 * sz)]
+    a = rng.choice(bases) + rng.choice(["", "", "+1", "+2", "-1", "-2", "-24", "-32", "+7"])
+    if rng.random() < 0.15:
+        a = rng.choice(["0", "1", "5", "300"])
+    return a
+
+def sizes_history(rng, hid):
+    """C09: one size-taking entry point with a count near the representable limits; both profiles;
+    own process (the expected outcome is a panic or the allocation-error abort)"""
+    cls = rng.choice(list(SIZES))
+    sz = SIZES[cls]
+    n = size_args(rng, sz)
+    pre = rng.choice([["new 0"], ["new 0", "push 0"], ["wcap 0 3", "push 0", "push 0"], ["walign 0 2 64", "push 0"]])
+    kind = rng.choice(["wcap", "walign", "reserve", "reservex", "resize", "resizewith", "macrep", "reserve", "wcap"])
+    if kind == "wcap":
+        ops = ["wcap 0 %s" % n]
+    elif kind == "walign":
+        ops = ["walign 0 %s %s" % (n, rng.choice(["8", "16", "64", "4096", "M/2+1", "32"]))]
+    elif kind == "macrep":
+        ops = ["macrep 0 %s" % rng.choice(["18446744073709551615", "9223372036854775808", "2305843009213693952", "1152921504606846976", "4611686018427387904", "3"])]
+    else:
+        ops = pre + ["%s 0 %s" % (kind, n)]
+    ops += ["push 0", "pop 0"]
+    return "H %s cls=%s prof=dr child=1 :: %s" % (hid, cls, " ; ".join(ops))
+
 def seed_for(ctx, salt=""):
     return (ctx.seed * 1000003 + zlib.crc32((ctx.pid + salt).encode())) & 0xffffffff
 
 def generate(ctx, P):
     pid = ctx.pid
-    if pid not in FLAVORS:
+    if pid not in FLAVORS and pid != "C09":
         return []
     rng = random.Random(seed_for(ctx))
     n = P.get("quick_n", 500) if ctx.tier == "quick" else P.get("thorough_n", 12000)
+    if pid == "C09":
+        return [sizes_history(rng, "z%d" % k) for k in range(n)]
     fl = FLAVORS[pid]
+    if pid == "C18":
+        out = []
+        for k in range(n // 3):
+            base = make(rng, {"malformed": 0.02, "maxops": 8, "classes": ["8x8", "3x1", "64x64", "2048x8", "16x16c"]}, "f%d" % k)
+            for af in rng.sample(range(0, 5), 3):
+                hdr, body = base.split("::", 1)
+                out.append("H f%d_%d %s af=%d child=1 ::%s" % (k, af, " ".join(hdr.split()[2:]), af, body))
+        return out
     out = []
     share = fl.get("iter_share", 0.0)
     for k in range(n):
